@@ -778,7 +778,7 @@ func (h *hhRun) run(kind string) {
 	h.base = NewLogBase()
 	addr := 1 + uint64(hr.Intn(2))
 	opts := WorldOpts{Addr: addr, MaxDepth: 1 + hr.Intn(3), Wrap: hr.Chance(40), Maps: true,
-		Detach: hr.Chance(35), LargeVals: hr.Chance(60), PopChild: true, KeySpace: []int{60, 60, 400}[hr.Intn(3)]}
+		Detach: hr.Chance(35), LargeVals: hr.Chance(60), PopChild: true, KeySpace: []int{60, 60, 400}[hr.Intn(3)], SelfSet: hr.Chance(50)}
 	if kind != "world" && hr.Chance(25) {
 		// real digests with the first level folded into a small alphabet: collision groups, external group slabs
 		mod := uint64(6 + hr.Intn(10))
